@@ -7,7 +7,7 @@
    micros < 10^6, or of parse_serial on well-formed bytes.  [same_fields m m']: ECU id, reception time,
    timestamp and timestamp presence, message counter, payload byte order, extended header, payload. *)
 From Coq Require Import List NArith Bool Lia.
-From AdltV Require Import Base.Res Base.MachInt Dlt.Frame Dlt.FrameProofs Dlt.Iter Dlt.IterProofs Dlt.Write Dlt.WriteProofs.
+From AdltV Require Import Base.Res Base.MachInt Dlt.Frame Dlt.FrameProofs Dlt.Iter Dlt.IterProofs Dlt.IterTotal Dlt.Write Dlt.WriteProofs.
 Import ListNotations.
 Open Scope N_scope.
 
@@ -69,6 +69,40 @@ Proof.
   unfold reparsed_list. rewrite expect_list_indices. unfold segs_of. rewrite map_length. reflexivity.
 Qed.
 
+(* whole files: every message the iterator yields from a well-formed byte file whose storage headers all have
+   micros < 10^6 is a parsed message, hence exporting the unfiltered file and exporting the export obey the
+   round trip above (whatever garbage or damage the input file contains) *)
+Definition file_micros_ok (data : bytes) : Prop :=
+  forall k, is_storage_pat (skipn k data) = true -> storage_micros (skipn k data) < 1000000.
+
+Theorem C02_file_messages_parsed (start : N) (data : bytes) ms st rest :
+  wf_bytes data -> file_micros_ok data -> run_iter start data = Ok (ms, st, rest) -> Forall parsed ms.
+Proof.
+  intros Hd Hm Hr. eapply Forall_impl; [|exact (run_iter_from_parse start data ms st rest Hr)].
+  intros m (k & idx & n & H). exists idx, (skipn k data), n. split; [apply wf_bytes_skipn; exact Hd|].
+  destruct H as [H|H]; [left|right; exact H]. split; [|exact H].
+  apply Hm. destruct (is_storage_pat (skipn k data)) eqn:E; [reflexivity|].
+  exfalso. exact (parse_storage_not_msg idx _ E n m H).
+Qed.
+
+Theorem C02_file_export_roundtrip (start : N) (data : bytes) ms st rest :
+  start <= u32max ->
+  wf_bytes data -> file_micros_ok data -> run_iter start data = Ok (ms, st, rest) ->
+  exists bytes ms' st',
+    write_all ms = Ok bytes /\ run_iter start bytes = Ok (ms', st', []) /\ Forall2 same_fields ms ms' /\
+    map m_index ms' = map m_index ms /\ i_skipped st' = 0 /\ i_processed st' = blen bytes /\
+    write_all ms' = Ok bytes.
+Proof.
+  intros Hst Hd Hm Hr.
+  pose proof (C02_file_messages_parsed start data ms st rest Hd Hm Hr) as Hp.
+  assert (Hidx : start + N.of_nat (length ms) <= u32max /\ map m_index ms = map (fun k => start + N.of_nat k) (seq 0 (length ms))).
+  { (* the first read did not overflow the index and numbered the messages from start *)
+    exact (run_iter_indices start data ms st rest Hst Hr). }
+  destruct Hidx as [Hidx Hmap].
+  destruct (C02_export_roundtrip start ms Hp Hidx) as (bytes & ms' & st' & H1 & H2 & H3 & H4 & H5 & H6 & H7).
+  exists bytes, ms', st'. repeat split; try assumption. rewrite H4, Hmap. reflexivity.
+Qed.
+
 (* byte-level integer codecs the above rests on *)
 Theorem C02_u16_be_roundtrip v : v <= 65535 -> match be16_bytes v with [a; b] => be16 a b = v | _ => False end.
 Proof. intros H. cbn. apply be16_bytes_dec; exact H. Qed.
@@ -111,6 +145,8 @@ Print Assumptions C02_write_ok.
 Print Assumptions C02_parse_write_fields.
 Print Assumptions C02_write_normal_form.
 Print Assumptions C02_export_roundtrip.
+Print Assumptions C02_file_messages_parsed.
+Print Assumptions C02_file_export_roundtrip.
 Print Assumptions C02_u16_be_roundtrip.
 Print Assumptions C02_u32_le_roundtrip.
 Print Assumptions C02_u32_be_roundtrip.
